@@ -79,7 +79,7 @@ def main(ctx):
     ctx.coverage["traces_validated_against_impl"] = int(ctx.counters["evaluations"])
     ctx.coverage["distinct_nontrivial"] = int(ctx.counters["nontrivial"])
     for n in ("recv_over_limit", "recv_within_limit", "header_only_checked", "send_refused",
-              "send_accepted", "bomb_over_cap", "bomb_within_cap", "later_message_checked",
+              "send_accepted", "bomb_over_cap", "bomb_within_cap", "later_message_checked", "receive_limit_after_refused_send",
               "failed_1009", "failed_drop", "bomb_while_closing"):
         ctx.require(n)
 
@@ -419,6 +419,22 @@ def _job_send(a, env):
                                              S, L, compress is not None, fragsize,
                                              [(len(m[0])) for m in got], rcv.proto.state,
                                              pair.escapes()[:1]), arg))
+                # ... and the limit keeps protecting the RECEIVING side of the same connection after a
+                # refused send: a message of exactly the limit is delivered, one octet more fails the
+                # connection and is not delivered
+                if raised is not None and compress is None and rcv.proto.state == 3 and snd.proto.state == 3:
+                    n0 = sum(1 for e in snd.proto.rec if e[0] == "onMessage")
+                    within, over_ = b"w" * L, b"o" * (L + 1)
+                    rcv.proto.sendMessage(within, True)
+                    rcv.proto.sendMessage(over_, True)
+                    pair.pump()
+                    got2 = [e[1] for e in snd.proto.rec if e[0] == "onMessage"][n0:]
+                    stats["receive_limit_after_refused_send"] = stats.get("receive_limit_after_refused_send", 0) + 1
+                    if got2 != [within] or snd.proto.state == 3:
+                        viol.append(_mk_viol(a, env, "receive-limit-gone-after-refused-send",
+                                             "L=%d: after a refused send of %d octets the peer sent %d and %d octets: "
+                                             "delivered %s, state %s" % (L, S, L, L + 1, [len(x) for x in got2],
+                                                                         snd.proto.state), arg))
     # dedupe by signature, keep first 3
     seen = {}
     out = []
